@@ -16,6 +16,36 @@ f(d0.Setting)
 f(d1.Setting)
 d2.Setting = 1
 """
+CONST_TESTS = ["0", "1", "2", "-1", "0.5", "6 & 2", "4 - 4", "True", "False", "LEVEL", "FLAGS & 2", "FLAGS & 1"]
+
+
+def const_test_programs():
+    """top-level if/else on a compile-time constant whose untaken branch calls a function twice"""
+    out = []
+    for i, t in enumerate(CONST_TESTS):
+        for neg in ("",):  # `if not <constant>:` with an else branch is a recorded C01 finding (witness if_not_constant)
+            out.append((f"const_test:{i}:{'not' if neg else 'pos'}", HDR + f"""
+FLAGS = 6
+LEVEL = 2
+
+def slow_step(v):
+    db.Setting = v
+
+def fast_step(v):
+    db.Mode = v
+
+if {neg}{t}:
+    db.On = 1
+    fast_step(3)
+    fast_step(4)
+else:
+    slow_step(5)
+    slow_step(6)
+db.Open = 7
+"""))
+    return out
+
+
 WITNESS_RETURN = HDR + """
 def f(x):
     db.Setting = x
@@ -47,6 +77,10 @@ def run(tier: str) -> int:
             items.append(("monitor", sp))
     for name, srcs in base.repo_sources():
         items.append(("monitor", dict(name=name, sources=srcs, tier=tier, strict=False, halt_on_fallthrough=False, opts={"inline_functions": False})))
+    for name, src in const_test_programs():
+        for vec in ({}, {"inline_functions": False}):
+            items.append(("monitor", dict(name=name, sources=src, tier=tier, halt_on_fallthrough=False, opts=vec)))
+            items.append(("src_vs_ic10", dict(name=name, sources=src, tier=tier, opts=vec)))
     items.append(("monitor", dict(name="witness:fallthrough", sources=WITNESS_FALLTHROUGH, tier=tier, halt_on_fallthrough=False)))
     items.append(("monitor", dict(name="witness:return_to_end", sources=WITNESS_RETURN, tier=tier, halt_on_fallthrough=False)))
     results = harness.pmap(e1.run_task, items)
@@ -58,12 +92,23 @@ def run(tier: str) -> int:
             rep.harness_errors.append(f"{spec['name']}: {r.get('detail')}")
         if r.get("main_end") is not None:
             with_function_region += 1
+        if kind == "src_vs_ic10" and r["status"] == "divergence":
+            path = e1.save_replay(PROP, dict(property=PROP, kind="src_vs_ic10", name=spec["name"], sources=spec["sources"], opts=spec.get("opts", {}), result=r))
+            rep.violation(f"{spec['name']}: constant-test program behaves differently from its source: {r['divergences'][0]['detail']}", path)
         for e in r.get("events", []):
             if e["kind"] not in ("fallthrough", "region_cross"):
                 continue
             n_ft += 1
             # mechanism of the known finding: sequential flow (or the return of main's last call)
             # from the last main line into the FIRST function region
+            st_ = r.get("stats") or {}
+            target = int(e["detail"][0]) if e["detail"] else -1
+            never_called = (e["kind"] == "fallthrough" and not st_.get("truncated") and st_.get("bound_paths", 0) == 0
+                            and target not in (st_.get("called_entries") or []))
+            if never_called:
+                path = e1.save_replay(PROP, dict(property=PROP, kind="monitor", name=spec["name"], sources=spec["sources"], opts=spec.get("opts", {}), event=e, code=r.get("code")))
+                rep.violation(f"{spec['name']}: a function body that no executed call reaches ({st_.get('function_entries', {}).get(str(target))}) is emitted after the main code and entered by fall-through", path)
+                continue
             if kf is not None and e["kind"] == "fallthrough" and int(e["detail"][0]) == r.get("main_end"):
                 rep.known(f"{kf['id']} {kf['what']}")
                 continue
